@@ -216,9 +216,43 @@ class World:
                     self._a_jk = self._a.copy()
                     self._a_jk_grads = dict()
 
+            from skyllh.core.pdfratio import PDFRatio
+
+            class CachingRatio(PDFRatio):
+                """a PDFRatio that pre-computes its values once per trial and hands out the cached array
+                itself on every call — allowed by the interface (initialize_for_new_trial: 'can be utilized
+                to pre-calculate PDFRatio values') and done by SplinedI3EnergySigSetOverBkgPDFRatio"""
+                def __init__(self, inner, **kw):
+                    super().__init__(sig_param_names=list(inner.sig_param_names),
+                                     bkg_param_names=list(inner.bkg_param_names), **kw)
+                    self.inner = inner
+                    self._cache = None
+                    self._state = None
+                    self.snapshot = None
+
+                def initialize_for_new_trial(self, tdm, tl=None, **kw):
+                    self.inner.initialize_for_new_trial(tdm=tdm, tl=tl, **kw)
+                    self._cache = None
+
+                def get_ratio(self, tdm, src_params_recarray, tl=None):
+                    key = (id(tdm), tdm.trial_data_state_id)
+                    if self._cache is None or self._state != key:
+                        self._cache = np.array(self.inner.get_ratio(
+                            tdm=tdm, src_params_recarray=src_params_recarray, tl=tl), dtype=np.float64)
+                        self._state = key
+                        self.snapshot = self._cache.tobytes()
+                    return self._cache
+
+                def get_gradient(self, tdm, src_params_recarray, fitparam_id, tl=None):
+                    return self.inner.get_gradient(tdm=tdm, src_params_recarray=src_params_recarray,
+                                                   fitparam_id=fitparam_id, tl=tl)
+
+                def intact(self):
+                    return self._cache is None or self._cache.tobytes() == self.snapshot
+
             cls._static = types.SimpleNamespace(
                 cfg=cfg, minimizer=Minimizer(LBFGSMinimizerImpl(cfg=cfg)),
-                SigPDF=SigPDF, BkgPDF=BkgPDF, StubWeights=StubWeights, sources={})
+                SigPDF=SigPDF, BkgPDF=BkgPDF, StubWeights=StubWeights, CachingRatio=CachingRatio, sources={})
         return cls._static
 
     @classmethod
@@ -246,15 +280,29 @@ class World:
         def select_events(self, events, tl=None):
             return (events[self.keep], (self.src, self.evt))
 
-    def __init__(self, case, weights=None, dataset_idx=0):
+    def __init__(self, case, weights=None, dataset_idx=0, caching=None):
+        """caching: None | 'outer' (the ratio handed to the llh-ratio object returns its cached array) |
+        'inner' (every SigOverBkgPDFRatio is wrapped, below products / source weighting)"""
         from skyllh.core.trialdata import TrialDataManager
-        from skyllh.core.storage import DataFieldRecordArray
-        from skyllh.core.pdfratio import SigOverBkgPDFRatio, SourceWeightedPDFRatio
         from skyllh.core.llhratio import ZeroSigH0SingleDatasetTCLLHRatio
         st = self.static()
+        self.case = case
+        self.caching = caching
+        self.dataset_idx = dataset_idx
         (self.shg_mgr, self.pmm) = self.source_world(case['K'])
-        ev = DataFieldRecordArray(np.array([(i,) for i in case['order']], dtype=[('id', np.int64)]))
         self.tdm = TrialDataManager()
+        self.weights = weights
+        self.own_weights = weights is None
+        self._init_trial(case)
+        self.ratio = self.build_ratio(case)
+        self.llh = ZeroSigH0SingleDatasetTCLLHRatio(pmm=self.pmm, minimizer=st.minimizer, shg_mgr=self.shg_mgr,
+                                                    tdm=self.tdm, pdfratio=self.ratio, cfg=st.cfg)
+        self.llh.initialize_for_new_trial()
+
+    def _init_trial(self, case):
+        from skyllh.core.storage import DataFieldRecordArray
+        self.events = DataFieldRecordArray(np.array([(i,) for i in case['order']], dtype=[('id', np.int64)]))
+        self.events_snapshot = np.array(self.events['id']).tobytes()
         sel = None
         if case['selected'] is not None:
             s = set(case['selected'])
@@ -263,23 +311,61 @@ class World:
             sel = World.Sel(keep, src, evt)
         # n_events=None makes the TrialDataManager take N from the raw event array
         n_events = None if (case.get('implicit_N') and case['N'] == len(case['order'])) else case['N']
-        self.tdm.initialize_trial(self.shg_mgr, self.pmm, ev, n_events=n_events, evt_sel_method=sel)
+        self.tdm.initialize_trial(self.shg_mgr, self.pmm, self.events, n_events=n_events, evt_sel_method=sel)
+
+    def build_ratio(self, case):
+        from skyllh.core.pdfratio import SigOverBkgPDFRatio, SourceWeightedPDFRatio
+        st = self.static()
+        self.sig_pdfs, self.bkg_pdfs, self.cachers = [], [], []
         ratio = None
         for f in case['factors']:
-            r = SigOverBkgPDFRatio(st.SigPDF(f['S'], cfg=st.cfg), st.BkgPDF(f['B'], cfg=st.cfg),
-                                   cfg=st.cfg, zero_bkg_ratio_value=f['z'])
+            sp, bp = st.SigPDF(f['S'], cfg=st.cfg), st.BkgPDF(f['B'], cfg=st.cfg)
+            self.sig_pdfs.append(sp)
+            self.bkg_pdfs.append(bp)
+            r = SigOverBkgPDFRatio(sp, bp, cfg=st.cfg, zero_bkg_ratio_value=f['z'])
+            if self.caching == 'inner':
+                r = st.CachingRatio(r, cfg=st.cfg)
+                self.cachers.append(r)
             ratio = r if ratio is None else ratio * r      # PDFRatio.__mul__ -> PDFRatioProduct
-        self.weights = weights
         if case['stacked']:
             if self.weights is None:
                 self.weights = st.StubWeights([case['a_k']], self.shg_mgr)
                 self.weights.calculate(None)
-            ratio = SourceWeightedPDFRatio(dataset_idx=dataset_idx, src_detsigyield_weights_service=self.weights,
+            ratio = SourceWeightedPDFRatio(dataset_idx=self.dataset_idx,
+                                           src_detsigyield_weights_service=self.weights,
                                            pdfratio=ratio, cfg=st.cfg)
-        self.ratio = ratio
-        self.llh = ZeroSigH0SingleDatasetTCLLHRatio(pmm=self.pmm, minimizer=st.minimizer, shg_mgr=self.shg_mgr,
-                                                    tdm=self.tdm, pdfratio=ratio, cfg=st.cfg)
+        if self.caching == 'outer':
+            ratio = st.CachingRatio(ratio, cfg=st.cfg)
+            self.cachers.append(ratio)
+        self.tables_snapshot = self.tables_bytes()
+        return ratio
+
+    def tables_bytes(self):
+        parts = [p.table.tobytes() for p in self.sig_pdfs] + [p.arr.tobytes() for p in self.bkg_pdfs]
+        if self.weights is not None:
+            parts.append(self.weights._a.tobytes())
+        return b'|'.join(parts)
+
+    def inputs_intact(self):
+        """stored input data (PDF tables, a_jk, the raw event array) bytewise unchanged"""
+        return self.tables_bytes() == self.tables_snapshot and \
+            np.array(self.events['id']).tobytes() == self.events_snapshot
+
+    def new_trial(self, case):
+        """re-use the TrialDataManager, the PDF-ratio objects and the llh-ratio object for new trial data
+        (same sources, same ratio structure and constants; new events, densities, selection, N)"""
+        self.case = case
+        for f, sp, bp in zip(case['factors'], self.sig_pdfs, self.bkg_pdfs):
+            sp.table = np.asarray(f['S'], dtype=np.float64)
+            bp.arr = np.asarray(f['B'], dtype=np.float64)
+        self.tables_snapshot = self.tables_bytes()
+        self._init_trial(case)
         self.llh.initialize_for_new_trial()
+
+    def evaluate(self, fp):
+        with np.errstate(all='ignore'), warnings.catch_warnings():
+            warnings.simplefilter('ignore')
+            return self.llh.evaluate(fp)
 
     def value(self, ns):
         with np.errstate(all='ignore'), warnings.catch_warnings():
@@ -648,6 +734,164 @@ def compare_model(ctx, jobs, exe, opa):
                          f'value of the implementation differs from the model (tol {tol:.3g})')
 
 
+
+# --------------------------------------------------------------------------- history probes
+#
+# "The value is a function of the current inputs only": metamorphic probes on the REAL objects with a
+# history (repeated / interleaved calls, two live instances, public mutators, re-used TrialDataManager,
+# argument and stored-data snapshots, ownership of returned arrays), each compared with a freshly built
+# twin that makes exactly one call.  They need no model.
+
+def variant(case, rng):
+    """same events / selection / N / constants, other signal densities"""
+    c = dict(case)
+    c['factors'] = [{'z': f['z'], 'B': list(f['B']),
+                     'S': [[x * rng.choice([0.5, 2.0, 3.0]) for x in row] for row in f['S']]}
+                    for f in case['factors']]
+    return c
+
+
+def gen_like(ctx, rng, case, size, implicit):
+    """another trial for the same analysis: same sources, ratio structure, constants and a_k"""
+    c = gen_case(ctx, rng, size=size, kind=case['kind'])
+    K, nf = case['K'], len(case['factors'])
+    f2, _ = gen_tables(rng, K, c['n_all'], nf, 0.2, 0.1, 0.1)
+    for f, g in zip(f2, case['factors']):
+        f['z'] = g['z']
+    c['factors'], c['K'], c['a_k'] = f2, K, list(case['a_k'])
+    if c['pairs'] is not None:
+        ids = sel_ids(c)
+        c['pairs'] = [[k, i] for k in range(K) for i in ids] if c['stacked'] else [[0, i] for i in ids]
+    if implicit and c['n_all'] >= 1:
+        c['implicit_N'], c['N'] = True, c['n_all']
+    else:
+        c['implicit_N'] = False
+        c['N'] = max(c['N'], len(sel_ids(c)), 1) + 2
+    return c
+
+
+def history_probes(ctx, rng, opa, cases, n, only_caching=None):
+    SITE = 'ZeroSigH0SingleDatasetTCLLHRatio.evaluate'
+    pool = [c for c in cases if not c['malformed'] and 1 <= len(sel_ids(c)) <= 200]
+    for idx, case in enumerate(pool[:n]):
+        caching = only_caching if only_caching is not None else ('outer', 'inner', 'none')[idx % 3]
+        cach = None if caching == 'none' else caching
+        N = case['N']
+        ns1, ns2 = 0.37 * N, 0.9993 * N
+        ctx.count('history:caching=' + caching)
+        try:
+            tw = World(case)
+            Rf = tw.ratios()
+            t1 = World(case).value(ns1)          # fresh twins: one evaluate per object
+            t2 = World(case).value(ns2)
+            sc1 = float_scale(Rf, N, ns1, opa) + abs(t1)
+            sc2 = float_scale(Rf, N, ns2, opa) + abs(t2)
+
+            def eq(a, b, sc):
+                return close(a, b, 1e-12 * ((sc if math.isfinite(sc) else 0.0) + 1.0))
+
+            def bad(kind, detail, pred, **extra):
+                ctx.violation(SITE, kind, detail, case=dict(lean(case), history=kind, caching=caching, **extra),
+                              predicate=pred)
+
+            # ---- repeat / arguments are inputs / returned values are owned by the caller
+            w = World(case, caching=cach)
+            fp = np.array([ns1], dtype=np.float64)
+            fpb = fp.tobytes()
+            (v1, g1) = w.evaluate(fp)
+            g1 = np.asarray(g1)
+            g1b = g1.tobytes()
+            (v1r, g1r) = w.evaluate(fp)                     # the SAME ndarray again
+            if fp.tobytes() != fpb:
+                bad('modifies-fitparam-values-argument', f'fitparam_values {ns1!r} -> {fp.tolist()!r}',
+                    'evaluate leaves its ndarray arguments unchanged')
+            if not eq(float(v1), t1, sc1) or not eq(float(v1r), t1, sc1):
+                bad('repeat-evaluate-differs', f'1st {float(v1)!r}, 2nd {float(v1r)!r}, fresh object {t1!r} at ns={ns1!r}',
+                    'two evaluate calls with the same arguments give the value of a fresh object')
+            if not all(c.intact() for c in w.cachers):
+                bad('modifies-ratio-array-returned-by-pdfratio',
+                    'the array handed out by PDFRatio.get_ratio was changed by evaluate',
+                    'evaluate does not modify the array owned by the PDFRatio object')
+            # ---- interleave: other observables, other ns, then the first point again
+            w.llh.calculate_ns_grad2(ns=ns1)
+            (v2, g2) = w.evaluate(np.array([ns2], dtype=np.float64))
+            w.ratios()
+            w.llh.calculate_ns_grad2(ns=ns2)
+            (v1c, _) = w.evaluate(np.array([ns1], dtype=np.float64))
+            if not eq(float(v2), t2, sc2) or not eq(float(v1c), t1, sc1):
+                bad('value-depends-on-earlier-evaluations',
+                    f'ns={ns2!r}: {float(v2)!r} (fresh {t2!r}); back at ns={ns1!r}: {float(v1c)!r} (fresh {t1!r})',
+                    'the value is a function of the current arguments only')
+            if g1.tobytes() != g1b or np.shares_memory(g1, np.asarray(g2)) or np.shares_memory(g1, np.asarray(g1r)):
+                bad('returned-gradient-array-reused', 'the gradient array returned by an earlier call was overwritten / is shared',
+                    'returned arrays are owned by the caller')
+            if not all(c.intact() for c in w.cachers):
+                bad('modifies-ratio-array-returned-by-pdfratio',
+                    'the array handed out by PDFRatio.get_ratio was changed by evaluate',
+                    'evaluate does not modify the array owned by the PDFRatio object')
+            if not w.inputs_intact():
+                bad('modifies-stored-input-data', 'PDF density tables / a_jk / raw event array changed',
+                    'evaluate and initialize_trial leave the stored input data unchanged')
+            # ---- public mutators, every observable having been read before
+            w.llh.initialize_for_new_trial()
+            w.llh.change_shg_mgr(w.shg_mgr)
+            va = w.value(ns1)
+            if not eq(va, t1, sc1):
+                bad('changed-by-reinitialisation', f'{va!r} after initialize_for_new_trial/change_shg_mgr, fresh {t1!r}',
+                    're-initialising with unchanged data does not change the value')
+            w.tdm.n_events = N + 3
+            vn = w.value(ns1)
+            tn = World(dict(case, N=N + 3, implicit_N=False)).value(ns1)
+            if not eq(vn, tn, sc1 + abs(tn)):
+                bad('stale-after-n_events-setter', f'{vn!r} after tdm.n_events = {N + 3}, fresh object {tn!r}',
+                    'the value follows TrialDataManager.n_events')
+            w.tdm.n_events = N
+            cv = variant(case, rng)
+            tv1 = World(cv).value(ns1)
+            tv2 = World(cv).value(ns2)
+            w.llh.pdfratio = w.build_ratio(cv)
+            vp = w.value(ns1)
+            if not eq(vp, tv1, sc1 + abs(tv1) * 4):
+                bad('stale-after-pdfratio-setter', f'{vp!r} after llhratio.pdfratio = <other ratio>, fresh object {tv1!r}',
+                    'the value follows the pdfratio property')
+            # ---- two instances built before first use, called alternately
+            wa, wb = World(case, caching=cach), World(cv, caching=cach)
+            seq = [(wa, ns1, t1, sc1), (wb, ns1, tv1, sc1 + 4 * abs(tv1)), (wa, ns2, t2, sc2),
+                   (wb, ns2, tv2, sc2 + 4 * abs(tv2)), (wa, ns1, t1, sc1), (wb, ns1, tv1, sc1 + 4 * abs(tv1))]
+            for (o, x, t, sc) in seq:
+                v = o.value(x)
+                if not eq(v, t, sc):
+                    bad('value-depends-on-other-instance', f'ns={x!r}: {v!r}, fresh object {t!r}',
+                        'two llh-ratio objects alive at once do not influence each other')
+                    break
+            # ---- the TrialDataManager / PDF ratios / llh-ratio object re-used for further trials
+            wt = World(case, caching=cach)
+            wt.value(ns1)
+            for step, nxt in enumerate([gen_like(ctx, rng, case, rng.choice([1, 3, 8, 20]), idx % 2 == 0),
+                                        gen_like(ctx, rng, case, rng.choice([2, 5, 13]), idx % 2 == 1), case]):
+                wt.new_trial(nxt)
+                Nn, nsel = nxt['N'], len(sel_ids(nxt))
+                if (wt.tdm.n_events, wt.tdm.n_selected_events, wt.tdm.n_pure_bkg_events) != (Nn, nsel, Nn - nsel):
+                    ctx.violation('TrialDataManager.initialize_trial', 'stale-event-counts-after-new-trial',
+                                  f'n_events={wt.tdm.n_events} n_selected={wt.tdm.n_selected_events} expected {Nn}, {nsel}',
+                                  case=dict(lean(nxt), history='new-trial', caching=caching, first=lean(case)),
+                                  predicate='N, N\' are those of the current trial')
+                x = 0.41 * Nn
+                v = wt.value(x)
+                fresh = World(nxt)
+                t = fresh.value(x)
+                sc = float_scale(fresh.ratios(), Nn, x, opa) + abs(t)
+                if not eq(v, t, sc):
+                    bad('value-depends-on-earlier-trials', f'trial {step + 2} on a re-used TrialDataManager: {v!r}, fresh {t!r}',
+                        'the value is a function of the current trial data only', next_trial=lean(nxt))
+                    break
+            ctx.count('history-probe-cases')
+        except Exception as ex:
+            ctx.violation(SITE, 'history-raises-' + type(ex).__name__, f'{type(ex).__name__}: {ex}',
+                          case=dict(lean(case), history='raises', caching=caching), impl=type(ex).__name__,
+                          predicate='legal call sequences do not raise')
+
+
 # --------------------------------------------------------------------------- multi-dataset
 
 def run_multi(ctx, rng, exe, opa, n):
@@ -691,6 +935,34 @@ def run_multi(ctx, rng, exe, opa, n):
                 (f, _) = dsw.get_weights()
                 plan.append((cases, [float(x) for x in f], ns, float(v)))
                 ctx.count(f'multi:J={J}')
+            # history: the SAME ndarray handed to consecutive calls, other observables in between
+            nsx = ns_list[1]
+            vfirst = plan[-2][3]
+            rep = {'multi': [lean(c) for c in cases], 'ns': [nsx], 'history': 'multi'}
+            fp = np.array([nsx], dtype=np.float64)
+            fpb = fp.tobytes()
+            with np.errstate(all='ignore'), warnings.catch_warnings():
+                warnings.simplefilter('ignore')
+                (va, _) = m.evaluate(fp)
+                (vb, _) = m.evaluate(fp)
+                changed = fp.tobytes() != fpb
+                worlds[0].evaluate(np.array([0.3 * cases[0]['N']], dtype=np.float64))
+                m.calculate_ns_grad2(ns=nsx, ns_pidx=0,
+                                     src_params_recarray=pmm.create_src_params_recarray(gflp_values=np.array([nsx])))
+                m.evaluate(np.array([0.5 * nsx], dtype=np.float64))
+                (vc, _) = m.evaluate(np.array([nsx], dtype=np.float64))
+            if changed:
+                ctx.violation(SITE, 'modifies-fitparam-values-argument', f'fitparam_values {nsx!r} -> {fp.tolist()!r}',
+                              case=rep, predicate='evaluate leaves its ndarray arguments unchanged')
+            tolh = 1e-12 * (abs(vfirst) + 1.0) if math.isfinite(vfirst) else 0.0
+            if not (close(float(va), vfirst, tolh) and close(float(vb), vfirst, tolh) and close(float(vc), vfirst, tolh)):
+                ctx.violation(SITE, 'value-depends-on-earlier-evaluations',
+                              f'ns={nsx!r}: first {vfirst!r}, repeated {float(va)!r}, {float(vb)!r}, after other calls {float(vc)!r}',
+                              case=rep, predicate='the value is a function of the current arguments only')
+            if not all(w.inputs_intact() for w in worlds):
+                ctx.violation(SITE, 'modifies-stored-input-data', 'PDF density tables / a_jk / raw event array changed',
+                              case=rep, predicate='evaluate leaves the stored input data unchanged')
+            ctx.count('history:multi')
         except Exception as ex:           # the implementation raised on a legal input
             ctx.violation(SITE, 'raises-' + type(ex).__name__, f'{type(ex).__name__}: {ex}',
                           case={'multi': [lean(c) for c in cases], 'ns': list(ns_list)}, impl=type(ex).__name__,
@@ -789,6 +1061,7 @@ def run(ctx):
     ctx.sample({'kind': c['kind'], 'K': c['K'], 'N': c['N'], 'n_selected': len(sel_ids(c)), 'ns': c['ns'][:4],
                 'a_k': c['a_k']})
     ctx.sample({'corpus_base_ns': corpus_cases()[0]['ns'], 'threshold': opa})
+    history_probes(ctx, rng, opa, cases[:3] + cases[-600:], ctx.budget(45, 600))
     try:
         if exe:
             compare_model(ctx, jobs, exe, opa)
@@ -814,5 +1087,7 @@ def replay(ctx, rp):
     jobs = []
     ctx.case(case)
     run_impl(ctx, case, opa, jobs)
+    if c.get('history'):
+        history_probes(ctx, ctx.rng, opa, [case], 1, only_caching=c.get('caching'))
     if exe:
         compare_model(ctx, jobs, exe, opa)
